@@ -92,12 +92,12 @@ Definition resolve_op (am : aobj) (o : op) : op :=
 
 (* the read-only hooks of the mixin: (state afterwards, what is returned).
    _ipython_key_completions_ / __dir__ : the base class's answer + list(self.aliases.keys()), a NEW list (concatenation);
-   __contains__ is NOT wrapped (the name is looked up as it is); nbytes walks `index` through the alias-resolving __getitem__ *)
+   __contains__ resolves the name first (fix 0f38318); nbytes walks `index` through the alias-resolving __getitem__ *)
 Definition alias_read (am : aobj) (q : query) (s : state) : state * outcome qval :=
   match q with
   | QCompletions => (s, Ret (VNames (index s ++ akeys (amap am))))
   | QDir => (s, Ret (VNames (index s ++ reg_names (registry s) ++ akeys (amap am))))
-  | QContains n => read (QContains n) s
+  | QContains n => read (QContains (resolve am n)) s
   | QNbytes => (s, match nbytes_of (resolve am) s with Ret n => Ret (VNat n) | Raise e => Raise e end)
   end.
 
